@@ -170,3 +170,35 @@ def ortho_defect_right(G):
     r1, n, r2 = G.shape
     Q = G.reshape(r1, n * r2)
     return float(np.max(np.abs(Q @ Q.T - np.eye(r1)))) if r1 else 0.0
+
+
+def ratio_interval(num2, tnum, den2, tden):
+    """Interval [lo, hi] containing sqrt(num2/den2) when num2, den2 are only known up to tnum, tden; None if undefined."""
+    if den2 - tden <= 0 or den2 <= 0:
+        return None
+    lo = math.sqrt(max(0.0, num2 - tnum) / (den2 + tden))
+    hi = math.sqrt((num2 + tnum) / (den2 - tden))
+    return lo * (1 - 1e-12), hi * (1 + 1e-12)
+
+
+def accuracy_interval(Y1, Y2):
+    """Interval that teneva.accuracy(Y1, Y2) = ||Y1-Y2||/||Y2|| (computed through Gram values) must lie in."""
+    F1, F2 = dense(Y1), dense(Y2)
+    A1, A2 = dense_abs(Y1), dense_abs(Y2)
+    d = len(Y1)
+    r1, r2 = ranks_of(Y1), ranks_of(Y2)
+    K = 32.0 * (d + sum((a + b) ** 2 for a, b in zip(r1, r2)) + max(shape_of(Y1)))
+    D = F1 - F2
+    return ratio_interval(float((D * D).sum()), 4 * K * EPS * float(((A1 + A2) ** 2).sum()),
+                          float((F2 * F2).sum()), K * EPS * float((A2 * A2).sum()))
+
+
+def erank_ref(Y):
+    n, r = shape_of(Y), ranks_of(Y)
+    d = len(n)
+    if d == 2:
+        return float(r[1])
+    sz = sum(n[k] * r[k] * r[k + 1] for k in range(d))
+    b = n[0] + n[d - 1]
+    a = sum(n[1:d - 1])
+    return (math.sqrt(b * b + 4 * a * sz) - b) / (2 * a)
